@@ -11,10 +11,11 @@
 (***************************************************************************)
 EXTENDS Integers, Sequences, FiniteSets, TLC, Json
 
-CertName(c) == IF c = "wrongname" THEN "another.example" ELSE "example.com"
+\* (two certificate kinds are wrong in two respects at once: relaxing one check must not relax the other)
+CertName(c) == IF c \in {"wrongname", "expired-wrongname", "notyet-wrongname"} THEN "another.example" ELSE "example.com"
 \* validity window of each certificate kind in hours relative to "now"
-NotBefore(c) == CASE c = "expired" -> -48 [] c = "notyet" -> 24 [] OTHER -> -1
-NotAfter(c)  == CASE c = "expired" -> -24 [] c = "notyet" -> 48 [] OTHER -> 24
+NotBefore(c) == CASE c \in {"expired", "expired-wrongname"} -> -48 [] c \in {"notyet", "notyet-wrongname"} -> 24 [] OTHER -> -1
+NotAfter(c)  == CASE c \in {"expired", "expired-wrongname"} -> -24 [] c \in {"notyet", "notyet-wrongname"} -> 48 [] OTHER -> 24
 ChainOK(c) == c # "untrusted"
 TimeOK(c, clock) == clock >= NotBefore(c) /\ clock <= NotAfter(c)
 \* setsni: the caller built the hello and then called SetSNI(x) ("" = no such call).  SetSNI stores hostnameInSNI(x) in
